@@ -1390,6 +1390,55 @@ fn main() {
             run_case(&line, &mut drv, &mut rep, args.thorough);
             rep.branch("stream:random");
         }
+        // (c0) the `prefix` tag of the extractor (TSeq.prefix: "every literal is still a prefix of the match"): it is lost
+        // where extract_concat restarts behind an unbounded part and must SURVIVE every operation applied to such a body
+        // (each arm of extract_repetition incl. the swapped lazy forms, alternation, captures) so that a literal of
+        // the left context is never glued onto an inner literal.  Template: PRE (?: BIG LIT ) REP POST and its
+        // alternation twin, under rg's defaults, -w, and one random configuration (seeded change C11-1-1).
+        {
+            const PRE: &[&str] = &["x", "foo", r"x", "", "q?"];
+            const BIG: &[&str] = &[r"\w+", "[A-Z]+", ".*", r"\pL{2,}", "[a-z]*?", r"\s+"];
+            const LIT: &[&str] = &["foo", "ab", "k"];
+            const REP: &[&str] = &["??", "*?", "?", "*", "+?", "+", "{0,2}?", "{1,2}?", "{2}", "{2,}?", "{0}", ""];
+            const POST: &[&str] = &["baz", "y", "", r"\w"];
+            let mut all: Vec<String> = vec![];
+            for pre in PRE {
+                for big in BIG {
+                    for lit in LIT {
+                        for rp in REP {
+                            for post in POST {
+                                all.push(format!("{}(?:{}{}){}{}", pre, big, lit, rp, post));
+                            }
+                        }
+                    }
+                }
+            }
+            for pre in PRE {
+                for big in BIG {
+                    for rp in REP {
+                        all.push(format!("{}(?:{}foo|bar){}baz", pre, big, rp));
+                        all.push(format!("{}({}k){}(y|)", pre, big, rp));
+                    }
+                }
+            }
+            let want = args.cases.unwrap_or(if args.thorough { all.len() } else { 260 });
+            let stride = (all.len() / want.max(1)).max(1);
+            let off = (args.seed as usize) % stride;
+            for (i, p) in all.iter().enumerate() {
+                if i % stride != off {
+                    continue;
+                }
+                let o = match (i / stride) % 3 {
+                    0 => Opts::default_rg(),
+                    1 => Opts { word: true, ..Opts::default_rg() },
+                    _ => Opts::random(&mut rng),
+                };
+                let line = case_line(&o, &[p.clone()], &[]);
+                run_case(&line, &mut drv, &mut rep, args.thorough);
+                rep.branch("stream:prefix-tag");
+            }
+            rep.notes.push(format!("prefix-tag templates: {} patterns, stride {}", all.len(), stride));
+        }
         // (c') smart case: literals / ranges / nested classes with and without upper-case members
         for p in [
             "foo", "Foo", "fOo", "[0-Z]x", "[!-Z]", "[a-z]X", "x[A-Z]", "[0-9a-fA-F]+", r"\pL", r"\w+", "[[:upper:]]a", "f[A]o",
